@@ -182,6 +182,17 @@ TEXT = {
              "follow-up call, and messages at or below the limit arrive byte-identical to the spec frame.",
         note="WasmClient is out of scope (wasm32 only).",
         ref="DESIGN.md §4 C17"),
+    "C06": dict(
+        technique="fault enumeration against scripted fake servers (client kind x fault x in-flight count x timeout mode), timeout/response races forced in both orders through probe gates, task cancellation at probe points; bounded-progress oracle with heartbeat",
+        text="Runtime monitoring with enumerated faults: fake TCP/WebSocket servers inject close/RST before and after the request is read, cuts "
+             "inside a response at offsets {1, 47, 48, mid-query, mid-body, last-1}, eleven malformed-header kinds held open, and WebSocket-"
+             "specific faults, with 0..16 calls in flight, with and without per-call timeouts, on all three clients (710 cells quick, 3621 x3 "
+             "thorough). Timeout-vs-response races are forced in five orders with verif-hooks gates and verified from event indices; calling tasks "
+             "are aborted at each probe point. Oracle: every in-flight and later call returns an error (or its own token when it legitimately won) "
+             "within a 15 s heartbeat-gated window, pending table exactly empty, late responses delivered to nobody, the next call on a healthy "
+             "client gets its own token, the notify subscriber sees end-of-stream, no thread panics.",
+        note="Drain-before-shutdown style reorderings are caught probabilistically (repeated held-lock cells). Cancelling mid-write of a large body is C05's domain.",
+        ref="DESIGN.md §4 C06"),
 }
 
 ALL = [f"C{i:02d}" for i in range(1, 20)]
